@@ -316,6 +316,62 @@ def _enclosing_if_test(n: ast.AST, parents: dict[int, ast.AST]) -> ast.expr | No
     return None
 
 
+def r_gatekeeper(ck: Checker) -> None:
+    """has_check_type_in_type: a negative answer is only ever the answer of the recursion over *all* arguments of the annotation
+    (an early `return False` for some kinds of annotation makes node classes inside them invisible: the field silently becomes
+    a property).  is_mutable_collection recognises mutability through the Mutable* ABCs (deque, UserList, ... are mutable too)."""
+    f = ck.repo.func(TYPING, "has_check_type_in_type")
+    tp = f.node.args.args[0].arg
+    what = "has_check_type_in_type answers False only as the result of examining every argument of the annotation"
+    leaves = decision_tree(strip_docstring(f.node.body), try_as_body=True, resolve=True, max_atoms=10)
+    bad = None
+    n_rec = 0
+    for lf in leaves:
+        if lf.outcome != "return" or lf.value is None:
+            continue
+        v = lf.value
+        if isinstance(v, ast.Constant) and v.value is True:
+            continue
+        if isinstance(v, ast.Constant) and v.value is False:
+            bad = f"returns False when {lf.assign} without looking at get_args({tp})"
+            continue
+        from ..astutil import alpha
+        if alpha(v) in (f"any((has_check_type_in_type(_b0, check_type) for _b0 in get_args({tp})))",) or (
+                "has_check_type_in_type(" in norm(v) and f"get_args({tp})" in norm(v) and norm(v).startswith("any(")):
+            n_rec += 1
+            continue
+        raise Unsupported(f"has_check_type_in_type returns {norm(v)[:60]}", f.node)
+    if bad:
+        ck.violation("R-QUANTIFY-ALL", f, f.node, what, construct=f"has_check_type_in_type: {bad}")
+    elif not n_rec:
+        raise Unsupported("has_check_type_in_type: recursion over the arguments not found", f.node)
+    else:
+        ck.holds("R-QUANTIFY-ALL", f, f.node, what, evaluations=len(leaves))
+    g = ck.repo.func(TYPING, "is_mutable_collection")
+    what = "is_mutable_collection tests against MutableSequence / MutableMapping / MutableSet"
+    subs = [c for c in ast.walk(g.node) if isinstance(c, ast.Call) and dotted(c.func) == "issubclass" and len(c.args) == 2]
+    names = {x.id for c in subs for x in ast.walk(c.args[1]) if isinstance(x, ast.Name)} | {x.attr for c in subs for x in ast.walk(c.args[1]) if isinstance(x, ast.Attribute)}
+    # a module-level tuple of classes used as the second argument
+    from ..loops import module_constant
+    for c in subs:
+        if isinstance(c.args[1], ast.Name):
+            mc = module_constant(g.mod.tree, c.args[1].id)
+            if isinstance(mc, (ast.Tuple, ast.List)):
+                names |= {norm(x).split(".")[-1] for x in mc.elts}
+            else:
+                for st in g.mod.tree.body:
+                    if isinstance(st, (ast.Assign, ast.AnnAssign)) and norm(st.targets[0] if isinstance(st, ast.Assign) else st.target) == c.args[1].id \
+                            and isinstance(st.value, (ast.Tuple, ast.List)):
+                        names |= {norm(x).split(".")[-1] for x in st.value.elts}
+    need = {"MutableSequence", "MutableMapping", "MutableSet"}
+    if not subs:
+        raise Unsupported("is_mutable_collection: no issubclass test", g.node)
+    if need <= names:
+        ck.holds("R-QUANTIFY-ALL", g, g.node, what)
+    else:
+        ck.violation("R-QUANTIFY-ALL", g, g.node, what, construct=f"is_mutable_collection tests against {sorted(names)} (mutable collections outside this list are accepted as property types)")
+
+
 def r_child_kind(ck: Checker, rule: str = "R-CHILD-KIND") -> None:
     """The collection flag of a child field is decided by the tuple shape of its annotation, never by an ABC test that a
     node class itself can satisfy (a node defining __len__/__iter__/__contains__ is a collections.abc.Collection)."""
@@ -379,6 +435,7 @@ def run(ck: Checker) -> None:
     ck.guard("R-NORMALISE", lambda: r_normalise(ck))
     ck.guard("R-NEWTYPE", lambda: r_newtype(ck))
     ck.guard("R-QUANTIFY-ALL", lambda: r_quantify_all(ck))
+    ck.guard("R-QUANTIFY-ALL", lambda: r_gatekeeper(ck))
     ck.guard("R-CHILD-KIND", lambda: r_child_kind(ck))
     from . import templates_rules as T
     ck.guard("R-TYPES-CACHE", lambda: T.r_types_cache(ck))
